@@ -5,7 +5,7 @@ group descriptor / inode / extent layouts).  Own crc32c (Castagnoli, reflected) 
 
 Abstract journal (what spec/Jbd2.tla calls the log) -> bytes in the journal inode's blocks of an ext2/3/4 image:
 
-  absj = {"cfg": {"csum": 0|1|2|3, "b64": 0|1, "async": 0|1, "L": n},
+  absj = {"cfg": {"csum": 0|1|2|3, "b64": 0|1, "async": 0|1, "L": n [, "tb": {"hi": h, "lo": l}]},
           "jsb": {"start": 0..L, "seq": s},
           "log": [rec_1 .. rec_L]}           ring position p (1-based) <-> journal block first + p - 1
   rec  = {"t": "junk"}
@@ -13,6 +13,10 @@ Abstract journal (what spec/Jbd2.tla calls the log) -> bytes in the journal inod
        | {"t": "data",   "v": v, "esc": 0|1}                    payload of version v
        | {"t": "revoke", "seq": s, "ok": 0|1, "blks": [b, ...]}
        | {"t": "commit", "seq": s, "ok": 0|1, "time": t, "hassum": 0|1, "sum": [rec, ...]}
+
+Transaction identifiers: every "seq" is an OFFSET from the journal's tid base cfg["tb"] (two 16-bit halves; absent = 0);
+the 32-bit tid on disk is (base + seq) mod 2^32 (spec/Jbd2.tla Conc) -- in block headers, in s_sequence and in the
+sequence number that the v2/v3 tag checksum covers.
 
 Target blocks are abstract indices 1..NB mapped to physical block numbers by the caller.  The escape bit travels in
 the tag ("esc") and in the data record; an escaped version's true content begins with the JBD2 magic, its image in
@@ -219,14 +223,29 @@ def log_image(v, esc, bs):
 STALE_V = 9000      # data blocks "from an earlier life of the log" use versions >= STALE_V (never the image of any tag)
 
 
+def tid_base(cfg):
+    """The tid base of a journal configuration as a 32-bit value."""
+    tb = cfg.get("tb")
+    return ((tb["hi"] << 16) | tb["lo"]) if tb else 0
+
+
+def halves(x):
+    return {"hi": (x >> 16) & 0xFFFF, "lo": x & 0xFFFF}
+
+
 class Encoder:
     def __init__(self, cfg, bs, uuid, tblk, uuid_mode="first", junk_mode="zero"):
         """cfg: csum/b64/async; tblk: abstract block index -> physical fs block."""
         self.cfg, self.bs, self.uuid, self.tblk = cfg, bs, uuid, tblk
         self.uuid_mode, self.junk_mode = uuid_mode, junk_mode
         self.csum = cfg["csum"]
+        self.tbase = tid_base(cfg)
         self.v23 = self.csum in (2, 3)
         self.seed = crc32c_raw(0xFFFFFFFF, uuid) if self.v23 else 0
+
+    def tid(self, seq):
+        """On-disk transaction identifier of offset seq."""
+        return (self.tbase + seq) & 0xFFFFFFFF
 
     def tag_bytes(self):
         if self.csum == 3:
@@ -246,7 +265,7 @@ class Encoder:
         b = bytearray(1024)
         struct.pack_into(">III", b, 0, MAGIC, T_SBV2, 0)
         struct.pack_into(">III", b, 12, self.bs, maxlen, first)
-        struct.pack_into(">II", b, 24, seq & 0xFFFFFFFF, start)
+        struct.pack_into(">II", b, 24, self.tid(seq), start)
         struct.pack_into(">i", b, 32, errno)
         comp, inc = self.features()
         struct.pack_into(">III", b, 36, comp, inc, 0)
@@ -261,12 +280,12 @@ class Encoder:
         return log_image(rec["v"], rec.get("esc", 0), self.bs)
 
     def _tagcsum(self, seq, v, esc):
-        c = crc32c_raw(self.seed, struct.pack(">I", seq & 0xFFFFFFFF))
+        c = crc32c_raw(self.seed, struct.pack(">I", self.tid(seq)))
         return crc32c_raw(c, log_image(v, esc, self.bs))
 
     def desc(self, rec):
         b = bytearray(self.bs)
-        struct.pack_into(">III", b, 0, MAGIC, T_DESC, rec["seq"] & 0xFFFFFFFF)
+        struct.pack_into(">III", b, 0, MAGIC, T_DESC, self.tid(rec["seq"]))
         off = 12
         n = len(rec["tags"])
         for i, t in enumerate(rec["tags"]):
@@ -305,7 +324,7 @@ class Encoder:
     def revoke(self, rec):
         b = bytearray(self.bs)
         rs = 8 if self.cfg["b64"] else 4
-        struct.pack_into(">IIII", b, 0, MAGIC, T_REVOKE, rec["seq"] & 0xFFFFFFFF, 16 + rs * len(rec["blks"]))
+        struct.pack_into(">IIII", b, 0, MAGIC, T_REVOKE, self.tid(rec["seq"]), 16 + rs * len(rec["blks"]))
         off = 16
         for x in rec["blks"]:
             pb = self.tblk[x]
@@ -320,7 +339,7 @@ class Encoder:
 
     def commit(self, rec):
         b = bytearray(self.bs)
-        struct.pack_into(">III", b, 0, MAGIC, T_COMMIT, rec["seq"] & 0xFFFFFFFF)
+        struct.pack_into(">III", b, 0, MAGIC, T_COMMIT, self.tid(rec["seq"]))
         struct.pack_into(">QI", b, 48, rec["time"], 0)
         if self.csum == 1 and rec.get("hassum", 0):
             c = 0xFFFFFFFF
@@ -382,7 +401,7 @@ def restart_journal(img_path, absj2, tblk, first=1, uuid=None, uuid_mode="first"
         im.wr(jmap[first + p - 1], enc.block(absj2["log"][p - 1], p))
     b = bytearray(im.rd(jmap[0]))
     start = absj2["jsb"]["start"]
-    struct.pack_into(">II", b, 24, absj2["jsb"]["seq"] & 0xFFFFFFFF, 0 if start == 0 else first + start - 1)
+    struct.pack_into(">II", b, 24, enc.tid(absj2["jsb"]["seq"]), 0 if start == 0 else first + start - 1)
     if struct.unpack_from(">I", b, 40)[0] & (INCOMPAT_CSUM2 | INCOMPAT_CSUM3):
         struct.pack_into(">I", b, 0xFC, 0)
         struct.pack_into(">I", b, 0xFC, crc32c_raw(0xFFFFFFFF, bytes(b[:1024])))
